@@ -7,10 +7,20 @@
     unlimited run);
   * `limit_length` — it has min(N, M) rows;
   * `limit_zero_unlimited` — `limit 0`/absent limit builds the limitless buffer.
-  The unbuffered path (`limitReached` in the walker) is covered by correspondence and by the oracle
-  "sub-multiset of the unlimited run with min(N, M) rows".
+  Streamed path (a query that is neither ordered nor aggregated; `limitReached` in the walker), for
+  every tree, every filter and every N ≥ 1, depth-first mode:
+  * `dfs_streamed_any_plan` — the depth-first walker's result under ANY plan (limited or not) is
+    `check_file` folded over the entries and archive members in pre-order, stopping at the limit;
+  * `dfs_streamed_limit` — whenever the unlimited search of a root succeeds with M rows, the search
+    with `limit N` succeeds, reports exactly min(N, M) rows, and they are the first min(N, M) chunks
+    the unlimited search wrote, in the same order (so the bytes on stdout are a prefix of the
+    unlimited output and the rows a sub-multiset of the unlimited rows);
+  * `streamed_limit_stops` — once N rows are out nothing more is examined (no further `check_file`).
+  Breadth-first streamed LIMIT, several roots and the footer are decided by the correspondence and by the
+  oracle "sub-multiset of the unlimited run with min(N, M) rows".
 -/
 import Fsel.Props.C05
+import Fsel.Lemmas.WalkLim
 
 namespace Fsel.C06
 open Fsel TopNL CriteriaL
@@ -56,5 +66,74 @@ theorem limit_zero_unlimited : (TopNState.new 0 : TopNState K V).limit = none :=
 /-- non-vacuity: a concrete history with a tie straddling the cut -/
 example : (insertAll (fun (a b : Nat) => decide (a ≤ b)) 2 [(3, "c"), (1, "a"), (1, "b"), (0, "z")]).values = ["z", "a"] := by
   decide
+
+/-! ### streamed LIMIT (no ORDER BY, no aggregate) in the depth-first walker -/
+
+open WalkL WalkLim
+
+/-- the root call of `visit_dir` (depth-first) under any plan: `check_file` over the entries and
+    archive members in pre-order, stopping when the streamed limit is reached -/
+theorem dfs_streamed_any_plan (p : Plan) (rp : RootParams) (path canon : Str) (kids : List Node) (st : WSt)
+    (hroot : 1 < canon.length) (hbase : rp.base = calcDepth canon)
+    (hg : goodL kids) (hnd : (inodesL kids).Nodup) (hfresh : ∀ i ∈ inodesL kids, i ∉ st.walk.visited) :
+    match foldLim p st.res (checksL p rp (eventsL rp path canon 1 kids)) with
+    | .error a => visitDirD p rp path canon true kids st = .error a
+    | .ok rs' => ∃ w', visitDirD p rp path canon true kids st = .ok { res := rs', walk := w' } := by
+  have hd : calcDepth canon - rp.base + 1 = 1 := by omega
+  have h := dfs_list_lim p rp path canon 1 hroot (by omega) hd kids st hg hnd hfresh
+  rw [visitDirD]
+  simp only [Bool.not_true, Bool.false_eq_true, if_false, hd]
+  cases hf : foldLim p st.res (checksL p rp (eventsL rp path canon 1 kids)) with
+  | error a => rw [hf] at h; exact h
+  | ok rs' => rw [hf] at h; obtain ⟨w', _, h2⟩ := h; exact ⟨w', h2⟩
+
+/-- **LIMIT N without ORDER BY returns the first min(N, M) rows of the unlimited search.**
+    `sU` is the state after searching the root with the limit removed (M = rows found); then the
+    limited search succeeds with a state `sL` such that the unlimited run wrote exactly `sL`'s chunks
+    first, in the same order, followed by the chunks `cs` the limit cut off. -/
+theorem dfs_streamed_limit (p : Plan) (rp : RootParams) (hb : p.q.isBuffered = false) (hn : 0 < p.q.limit)
+    (path canon : Str) (kids : List Node) (st sU : WSt)
+    (hroot : 1 < canon.length) (hbase : rp.base = calcDepth canon)
+    (hg : goodL kids) (hnd : (inodesL kids).Nodup) (hfresh : ∀ i ∈ inodesL kids, i ∉ st.walk.visited)
+    (h0 : st.res.found ≤ p.q.limit)
+    (hU : visitDirD (unlimited p) rp path canon true kids st = .ok sU) :
+    ∃ sL cs, visitDirD p rp path canon true kids st = .ok sL ∧
+      sU.res.outRev = cs ++ sL.res.outRev ∧
+      sU.res.found = sL.res.found + cs.length ∧
+      sL.res.found = min p.q.limit sU.res.found := by
+  have hu := dfs_streamed_any_plan (unlimited p) rp path canon kids st hroot hbase hg hnd hfresh
+  have hlm := dfs_streamed_any_plan p rp path canon kids st hroot hbase hg hnd hfresh
+  rw [checksL_unlimited] at hu
+  cases hf : foldLim (unlimited p) st.res (checksL p rp (eventsL rp path canon 1 kids)) with
+  | error a => rw [hf] at hu; rw [hu] at hU; contradiction
+  | ok rsU =>
+    rw [hf] at hu
+    obtain ⟨wU, hwU⟩ := hu
+    rw [hwU] at hU
+    injection hU with hU
+    subst hU
+    obtain ⟨rsL, cs, h1, h2, h3, h4⟩ := lim_is_prefix p hb hn _ st.res rsU h0 hf
+    rw [h1] at hlm
+    obtain ⟨wL, hwL⟩ := hlm
+    exact ⟨{ res := rsL, walk := wL }, cs, hwL, h2, h3, h4⟩
+
+/-- … in bytes: the limited stdout is a prefix of the unlimited stdout -/
+theorem dfs_streamed_limit_bytes (p : Plan) (rp : RootParams) (hb : p.q.isBuffered = false) (hn : 0 < p.q.limit)
+    (path canon : Str) (kids : List Node) (st sU : WSt)
+    (hroot : 1 < canon.length) (hbase : rp.base = calcDepth canon)
+    (hg : goodL kids) (hnd : (inodesL kids).Nodup) (hfresh : ∀ i ∈ inodesL kids, i ∉ st.walk.visited)
+    (h0 : st.res.found ≤ p.q.limit)
+    (hU : visitDirD (unlimited p) rp path canon true kids st = .ok sU) :
+    ∃ sL rest, visitDirD p rp path canon true kids st = .ok sL ∧ sU.res.out = sL.res.out ++ rest := by
+  obtain ⟨sL, cs, h1, h2, _, _⟩ := dfs_streamed_limit p rp hb hn path canon kids st sU hroot hbase hg hnd hfresh h0 hU
+  exact ⟨sL, cs.reverse.flatten, h1, by simp [ResSt.out, h2]⟩
+
+/-- once the limit is reached nothing more is examined -/
+theorem streamed_limit_stops (p : Plan) (rs : ResSt) (h : limitReached p rs = true) (es : List Entry) :
+    foldLim p rs es = .ok rs := foldLim_reached p rs h es
+
+/-- `limit 0` / no limit / a buffered query: the streamed cut-off never fires -/
+theorem no_streamed_limit (p : Plan) (h : p.q.isBuffered = true ∨ p.q.limit = 0) (rs : ResSt) :
+    limitReached p rs = false := noLimit_false p h rs
 
 end Fsel.C06
